@@ -104,7 +104,7 @@ CHECKS.update({
 
 CHECKS.update({
     "C07": dict(
-        text="token soup: every sequence of <=4/5 tokens over 23 tokens (tags of names a,b,c, text, CDATA incl. empty, comment, DOCTYPE, PI, known/unknown entity, xsi:nil, duplicate / value-less / unclosable attributes), bare and wrapped in a root, x 32 target types (derived structs/enums reaching every deserializer path, bounded sequence and map collectors, hand-written lazy visitors) x from_str and from_reader; documents in two non-UTF-8 encodings; every truncation at every byte of every plain serialization of the C06 value set; all under catch_unwind with a 20 s watchdog and bounded collectors, so panics, endless sequences and hangs are violations",
+        text="token soup: every sequence of <=4/5 tokens over 27 tokens (tags of names a,b,c, text, CDATA incl. empty, comment, DOCTYPE, PI, known/unknown entity, xsi:nil unbound and bound to the XSI namespace on start and empty tags, duplicate / value-less / unclosable attributes), bare and wrapped in a root, x 34 target types (derived structs/enums reaching every deserializer path, bounded sequence and map collectors, hand-written lazy visitors) x from_str and from_reader; documents in two non-UTF-8 encodings; every truncation at every byte of every plain serialization of the C06 value set; all under catch_unwind with a 20 s watchdog and bounded collectors, so panics, endless sequences and hangs are violations",
         note="target family fixed; open known finding F11 (visitor that does not drain its MapAccess); defects F3 and F10 found by this check were repaired (fix: commits 94d1156, bda524f)",
         technique="bounded-exhaustive enumeration of token sequences x target types through the real deserializer with a totality oracle (no panic / no non-termination)",
     ),
